@@ -21,7 +21,7 @@ CONSTANTS
   R2S = {36, 41, 50}
   NDrops = 1
   Margin = 4
-  PosStep = 2
+  PosStep = 4
 INVARIANT OnePerOriginal
 INVARIANT ExactVolume
 INVARIANT HalfCell
